@@ -55,6 +55,14 @@ Definition ceqb (x y : float * float) : bool := feqb (fst x) (fst y) && feqb (sn
 Definition tw_of_table (tab : list (float * float)) (cur i : nat) : float * float :=
   nth (i * ((length tab - 1) / (2 * cur)))%nat tab (0%float, 0%float).
 
+(** integer literals of the generated case files: Coq's decimal parser for [Z] costs ~1 ms per
+    19-digit number, primitive 63-bit integers parse natively.  [zp x] = x, [zn x] = -x,
+    [zh x] = x + 2^63 (a 64-bit pattern with the sign bit set). *)
+Definition zp (x : int) : Z := Uint63.to_Z x.
+Definition zn (x : int) : Z := - Uint63.to_Z x.
+Definition zh (x : int) : Z := Uint63.to_Z x + 2 ^ 63.
+Arguments zp x%uint63. Arguments zn x%uint63. Arguments zh x%uint63.
+
 (** ** cases *)
 Inductive op :=
 | OFresh                                                     (* drop the object, take FFT::new() *)
